@@ -72,6 +72,18 @@ func New(filename string, src io.Reader) (*Lexer, error) {
 // NextToken scans the input stream until it recognizes a valid token, which it then returns.
 // If the end of the input is reached, it returns an io.EOF error.
 func (l *Lexer) NextToken() (lexer.Token, error) {
+	// Whitespaces, newlines, and comments are skipped in a loop, not by calling NextToken again:
+	// the depth of the recursion would grow with the number of consecutive comments and blank lines.
+	for {
+		if token, ok, err := l.scan(); ok || err != nil {
+			return token, err
+		}
+	}
+}
+
+// scan scans one lexeme and returns its token.
+// The flag is false, and there is no token, if the lexeme is a whitespace, a newline, or a comment.
+func (l *Lexer) scan() (lexer.Token, bool, error) {
 	for curr, next := 0, 0; ; curr = next {
 		// Read the next character from the input stream.
 		r, err := l.in.Next()
@@ -82,7 +94,7 @@ func (l *Lexer) NextToken() (lexer.Token, error) {
 				return l.emit(curr)
 			}
 
-			return lexer.Token{}, err
+			return lexer.Token{}, false, err
 		}
 
 		// Keep running the DFA through the input symbols.
@@ -98,18 +110,17 @@ func (l *Lexer) NextToken() (lexer.Token, error) {
 }
 
 // emit evaluates the final state of the DFA and returns the corresponding token.
-// Whitespaces, newlines, and comments are skipped and the next token is returned instead.
-func (l *Lexer) emit(state int) (lexer.Token, error) {
+// Whitespaces, newlines, and comments yield no token.
+func (l *Lexer) emit(state int) (lexer.Token, bool, error) {
 	token := l.evalDFA(state)
 
 	switch token.Terminal {
 	case ERR:
-		return lexer.Token{}, errors.New(token.Lexeme)
+		return lexer.Token{}, false, errors.New(token.Lexeme)
 	case WS, EOL, COMMENT:
-		// Skip whitespaces, newlines, and comments.
-		return l.NextToken()
+		return lexer.Token{}, false, nil
 	default:
-		return token, nil
+		return token, true, nil
 	}
 }
 
